@@ -211,7 +211,20 @@ func (mb *MBucket) applyDelete(m *Model, k string, markerID string) {
 		// S3 records a "null" delete marker.
 		mk.Entries = append(mk.Entries, &MVersion{Marker: true, Null: true})
 	}
-	if len(mk.Entries) == 0 {
+	mb.forgetIfEmpty(k)
+}
+
+// forgetIfEmpty drops a key without entries from the model, unless writes were made to it
+// while versioning was not enabled in a bucket that has (had) versioning: the model holds at
+// most one "null" entry per key, the implementation may keep every such write as a version of
+// its own, so the key may legitimately still be listed by ListObjectVersions (NullWrites bounds
+// how many entries). Such a key reads as NoSuchKey.
+func (mb *MBucket) forgetIfEmpty(k string) {
+	mk := mb.Keys[k]
+	if mk == nil || len(mk.Entries) > 0 {
+		return
+	}
+	if mb.Versioning == "" || mk.NullWrites == 0 {
 		delete(mb.Keys, k)
 	}
 }
@@ -224,9 +237,7 @@ func (mb *MBucket) applyDeleteVersion(k, id string) {
 	if i := mk.find(id); i >= 0 {
 		mk.removeAt(i)
 	}
-	if len(mk.Entries) == 0 {
-		delete(mb.Keys, k)
-	}
+	mb.forgetIfEmpty(k)
 }
 
 // UserMeta filters the headers that the statement of C01 calls metadata.
